@@ -111,6 +111,10 @@ type Spec struct {
 	Canon          bool                         // function-level aliases (prepare): renamed parameters and hoisted pure reads are substituted back before markers and keys are matched
 	Inline         bool                         // translate calls to single-result functions / methods declared in the same file by inlining their bodies
 	Lazy           bool                         // drop `x := e` when e is not translatable; a later translated use of x then fails the unit
+	BindRecv       map[string]string            // method name (".FromBase64String") -> canonical name of the receiver variable it is called on
+	BindArg        map[string]string            // "callee#i" ("json.Unmarshal#1") -> canonical name of the variable passed (by address or value) as i-th argument
+	BindDecl       map[string]string            // type text ("ct.SHA256Hash") -> canonical name of a `var x T` (no value) that no other binding names
+	BindCommaOk    string                       // canonical name of the ok of `_, ok := m[k]`
 	Bind           map[string]string            // call-name prefix -> the name the Spec's keys use for the call's first result (survives a rename of the local)
 }
 
@@ -175,7 +179,7 @@ func (t *tr) restore(s saved) {
 // translatable: the helper's body is translated in place, and each of its `return e1, e2, e3` continues with the caller's
 // remaining statements in which a, b, c stand for e1, e2, e3 (state variables set on the way are threaded by Lean's shadowing).
 func (t *tr) inlineMulti(x *ast.AssignStmt, rest []ast.Stmt, tail, ind string) (string, bool) {
-	if !t.sp.Inline || t.depth > 3 || len(x.Rhs) != 1 || len(x.Lhs) < 2 {
+	if !t.sp.Inline || t.depth > 3 || len(x.Rhs) != 1 || len(x.Lhs) < 1 {
 		return "", false
 	}
 	c, ok := x.Rhs[0].(*ast.CallExpr)
@@ -261,7 +265,76 @@ func (t *tr) alias(name string, e ast.Expr) {
 
 // prepare sets up the function-level aliases of a unit: parameters renamed with respect to Spec.ParamNames, and every local
 // that is defined exactly once by a pure access path which is not itself translatable (`naStart := opts.notAfterStart`).
+// bindNames gives the locals of fd that the Spec identifies by their ROLE (receiver of a named method, argument of a named call,
+// zero value of a type, ok of a map lookup) their canonical names, whatever they are called in the source.
+func (t *tr) bindNames(fd *ast.FuncDecl) {
+	if fd == nil || fd.Body == nil || (len(t.sp.BindRecv) == 0 && len(t.sp.BindArg) == 0 && len(t.sp.BindDecl) == 0 && t.sp.BindCommaOk == "") {
+		return
+	}
+	bound := map[string]bool{}
+	set := func(e ast.Expr, canon string) {
+		if u, ok := e.(*ast.UnaryExpr); ok && u.Op == token.AND {
+			e = u.X
+		}
+		if id, ok := e.(*ast.Ident); ok && id.Name != "_" {
+			bound[id.Name] = true
+			if id.Name != canon {
+				t.alias(id.Name, ast.NewIdent(canon))
+			}
+		}
+	}
+	ast.Inspect(fd.Body, func(n ast.Node) bool {
+		switch x := n.(type) {
+		case *ast.CallExpr:
+			if sel, ok := x.Fun.(*ast.SelectorExpr); ok {
+				if canon, ok := t.sp.BindRecv["."+sel.Sel.Name]; ok {
+					set(sel.X, canon)
+				}
+			}
+			for k, canon := range t.sp.BindArg {
+				i := strings.LastIndex(k, "#")
+				if i < 0 || norm(src(x.Fun)) != k[:i] {
+					continue
+				}
+				var idx int
+				fmt.Sscanf(k[i+1:], "%d", &idx)
+				if idx < len(x.Args) {
+					set(x.Args[idx], canon)
+				}
+			}
+		case *ast.AssignStmt:
+			if t.sp.BindCommaOk != "" && x.Tok == token.DEFINE && len(x.Lhs) == 2 && len(x.Rhs) == 1 {
+				if _, ok := x.Rhs[0].(*ast.IndexExpr); ok {
+					set(x.Lhs[1], t.sp.BindCommaOk)
+				}
+			}
+		}
+		return true
+	})
+	ast.Inspect(fd.Body, func(n ast.Node) bool {
+		if ds, ok := n.(*ast.DeclStmt); ok {
+			if gd, ok := ds.Decl.(*ast.GenDecl); ok && gd.Tok == token.VAR {
+				for _, sp := range gd.Specs {
+					vs := sp.(*ast.ValueSpec)
+					if len(vs.Values) != 0 || vs.Type == nil {
+						continue
+					}
+					if canon, ok := t.sp.BindDecl[norm(src(vs.Type))]; ok {
+						for _, nm := range vs.Names {
+							if !bound[nm.Name] {
+								set(nm, canon)
+							}
+						}
+					}
+				}
+			}
+		}
+		return true
+	})
+}
+
 func (t *tr) prepare(fd *ast.FuncDecl) {
+	t.bindNames(fd)
 	if fd == nil || fd.Body == nil || !t.sp.Canon {
 		return
 	}
@@ -386,6 +459,7 @@ func (t *tr) bindHelper(fd *ast.FuncDecl, recv ast.Expr, c *ast.CallExpr, sp Spe
 			i++
 		}
 	}
+	t2.bindNames(fd)
 	return t2, i == len(c.Args)
 }
 
@@ -474,6 +548,12 @@ func (t *tr) inlineErr(e ast.Expr) (string, bool) {
 	}()
 	if !done {
 		return "", false
+	}
+	// a helper that sets a state variable of the unit on the way cannot be summarised as "did it fail": its effect would be lost
+	for _, v := range t.sp.StateVars {
+		if strings.Contains(out, "let "+v+" :=") {
+			return "", false
+		}
 	}
 	return "((" + out + ") != ErrKind.ok)", true
 }
@@ -587,7 +667,18 @@ func (t *tr) subst(e ast.Expr) ast.Expr {
 		}
 		return x
 	case *ast.SelectorExpr:
-		return &ast.SelectorExpr{X: t.subst(x.X), Sel: x.Sel}
+		in := t.subst(x.X)
+		if p, ok := in.(*ast.ParenExpr); ok {
+			if u, ok := p.X.(*ast.UnaryExpr); ok && u.Op == token.AND {
+				in = u.X // (&v).f is v.f
+			}
+		}
+		if u, ok := in.(*ast.UnaryExpr); ok && u.Op == token.AND {
+			in = u.X // a pointer parameter bound to &v: p.f is v.f
+		}
+		return &ast.SelectorExpr{X: in, Sel: x.Sel}
+	case *ast.SliceExpr:
+		return &ast.SliceExpr{X: t.subst(x.X), Low: t.subst(x.Low), High: t.subst(x.High), Max: t.subst(x.Max), Slice3: x.Slice3}
 	case *ast.ParenExpr:
 		return &ast.ParenExpr{X: t.subst(x.X)}
 	case *ast.StarExpr:
@@ -823,6 +914,13 @@ func (t *tr) nilCompare(e ast.Expr) string {
 		other = b.Y
 	} else {
 		return ""
+	}
+	if id, ok := other.(*ast.Ident); ok && id.Name == "err" && t.pendingErr != "" && t.errKnown == 0 {
+		// the error of the latest ErrCalls call, tested inside a larger condition (`err != nil && status.Code(err) != …`)
+		if b.Op == token.NEQ {
+			return t.pendingErr
+		}
+		return "(!" + t.pendingErr + ")"
 	}
 	switch t.nilness(other) {
 	case 1:
@@ -1382,6 +1480,11 @@ func (t *tr) stmtEffect(x *ast.AssignStmt) (string, bool) {
 		return eff, true
 	}
 	if len(x.Lhs) == 1 && len(x.Rhs) == 1 && len(t.aliases) > 0 {
+		if eff, ok := t.sp.AppendEffect["stmt:"+norm(src(t.subst(x.Lhs[0])))+"="+norm(src(t.subst(x.Rhs[0])))]; ok {
+			return eff, true
+		}
+	}
+	if len(x.Lhs) == 1 && len(x.Rhs) == 1 && len(t.aliases) > 0 {
 		// the same assignment written through a hoisted pure read (`entry := leaf.TimestampedEntry; entry.EntryType = …`)
 		if eff, ok := t.sp.AppendEffect["stmt:"+norm(src(t.subst(x.Lhs[0])))+"="+norm(src(t.subst(x.Rhs[0])))]; ok {
 			return eff, true
@@ -1468,6 +1571,15 @@ func (t *tr) initCondByCall(x *ast.IfStmt) (string, bool) {
 		}
 	}
 	return "", false
+}
+
+func (t *tr) isHelperCall(e ast.Expr) bool {
+	c, ok := e.(*ast.CallExpr)
+	if !ok {
+		return false
+	}
+	fd, _ := t.resolveHelper(c)
+	return fd != nil && fd.Body != nil
 }
 
 func (t *tr) knownErrCall(e ast.Expr) bool {
@@ -1623,6 +1735,28 @@ func (t *tr) block(b []ast.Stmt, tail string, ind string) string {
 		}
 		failf(s, "unsupported defer %s", src(s))
 	case *ast.ReturnStmt:
+		if len(x.Results) == 1 && t.sp.Inline && t.depth <= 3 {
+			if c, ok := x.Results[0].(*ast.CallExpr); ok {
+				if _, known := prefixLookup(t.sp.ErrCalls, callKey(t.subst(c))); !known {
+					if hfd, _ := t.resolveHelper(c); hfd != nil && hfd.Body != nil && hfd.Type.Results != nil && hfd.Type.Results.NumFields() >= 2 {
+						// `return helper(…)` handing on several results: as `r0, r1 := helper(…); return r0, r1`
+						var lhs, res []ast.Expr
+						for i := 0; i < hfd.Type.Results.NumFields(); i++ {
+							nm := fmt.Sprintf("ret%d_", i)
+							if i == hfd.Type.Results.NumFields()-1 {
+								nm = "err"
+							}
+							lhs = append(lhs, ast.NewIdent(nm))
+							res = append(res, ast.NewIdent(nm))
+						}
+						as := &ast.AssignStmt{Lhs: lhs, Tok: token.DEFINE, Rhs: []ast.Expr{c}}
+						if out, ok := t.inlineMulti(as, []ast.Stmt{&ast.ReturnStmt{Results: res}}, tail, ind); ok {
+							return out
+						}
+					}
+				}
+			}
+		}
 		return t.ret(x)
 	case *ast.BranchStmt:
 		if x.Tok == token.CONTINUE && x.Label == nil && t.sp.ContinueVal != "" {
@@ -1920,6 +2054,12 @@ func (t *tr) block(b []ast.Stmt, tail string, ind string) string {
 				c = r
 			} else if as1, ok1 := x.Init.(*ast.AssignStmt); ok1 && len(as1.Rhs) == 1 && src(x.Cond) == "err != nil" && src(as1.Lhs[len(as1.Lhs)-1]) == "err" && t.inlinedErr(as1.Rhs[0]) != "" {
 				c = t.inlinedErr(as1.Rhs[0])
+			} else if as3, ok3 := x.Init.(*ast.AssignStmt); ok3 && len(as3.Rhs) == 1 && t.sp.Inline && t.sp.Lazy && t.isHelperCall(as3.Rhs[0]) && t.inlinedErr(as3.Rhs[0]) == "" {
+				// a same-file helper that cannot be summarised as "did it fail" (it sets state, or its results are needed): run it as a
+				// statement, where it is inlined with its returns continuing into the test
+				y := *x
+				y.Init = nil
+				return t.block(append([]ast.Stmt{x.Init, &y}, rest...), tail, ind)
 			} else if as2, ok2 := x.Init.(*ast.AssignStmt); ok2 && len(as2.Rhs) == 1 && t.knownErrCall(as2.Rhs[0]) {
 				// an ErrCalls call with an effect: run it as a statement (effect first), then `if err != nil`
 				y := *x
@@ -1943,6 +2083,9 @@ func (t *tr) block(b []ast.Stmt, tail string, ind string) string {
 			}
 		} else if src(x.Cond) == "err != nil" && t.pendingErr != "" {
 			c = t.pendingErr
+			t.pendingErr = ""
+		} else if norm(src(x.Cond)) == "err==nil" && t.pendingErr != "" {
+			c = "(!" + t.pendingErr + ")"
 			t.pendingErr = ""
 		} else if kc := t.nilCompare(t.subst(x.Cond)); kc != "" {
 			c = kc
